@@ -273,25 +273,30 @@ let run_fetch header ops =
            | _ -> failwith "p op")
       | _ -> failwith "fetch op" in
     let run o = let (g', outs) = gstep md5_bytes !g o in g := g'; outs in
-    let outs = run gop in
+    let outs0 = run gop in
+    (* a failed hash of the assembled metadata: what happens to the provider afterwards (kept, or dropped by the
+       transfer list's bad-peer handling) is not constrained by the property and not modelled: the glue stops comparing here *)
+    let hashfail = List.mem GHashFailed outs0 in
+    let outs = List.filter (fun o -> o <> GHashFailed) outs0 in
     let routs = List.concat_map (fun r ->
       if r = "" then [] else
       match String.split_on_char ':' r with
       | [i; p] -> run (GRequest (n_of_string i, n_of_string p))
       | _ -> failwith "req") (String.split_on_char ',' reqs) in
-    let key o = match o with GQ (i, _, _) -> (int_of_n i, 0) | GInadmissible (i, _) -> (int_of_n i, 0) | GJ (i, _, _) -> (int_of_n i, 0) | GClosed i -> (int_of_n i, 1) in
+    let key o = match o with GQ (i, _, _) -> (int_of_n i, 0) | GInadmissible (i, _) -> (int_of_n i, 0) | GJ (i, _, _) -> (int_of_n i, 0) | GClosed i -> (int_of_n i, 1) | GHashFailed -> (99, 2) in
     let all = List.stable_sort (fun a b -> compare (key a) (key b)) (outs @ routs) in
     let ev = String.concat "" (List.map (fun o -> match o with
       | GQ (i, id, p) -> Printf.sprintf "Q%d(id=%d,piece=%s) " (int_of_n i) (int_of_n id) (string_of_n p)
       | GInadmissible (i, p) -> Printf.sprintf "INADMISSIBLE%d(%s) " (int_of_n i) (string_of_n p)
       | GJ (i, id, p) -> Printf.sprintf "J%d(id=%d,piece=%s) " (int_of_n i) (int_of_n id) (string_of_n p)
+      | GHashFailed -> ""
       | GClosed i -> Printf.sprintf "X%d " (int_of_n i)) all) in
     let s = !g in
     let sz = match s.g_size with Some n -> string_of_n n | None -> "1" in
     let (dn, file) = match s.g_done with Some d -> ("1", pay_str d) | None -> ("0", "-") in
     let conns = String.concat "" (List.map (fun q -> Printf.sprintf " C%d[idm=%d rs=%d rd=1 wr=0 pend=0]" (int_of_n q.p_idx) (int_of_n q.p_idm) (b01 q.p_rs))
       (List.sort (fun a b -> compare (int_of_n a.p_idx) (int_of_n b.p_idx)) s.g_peers)) in
-    parts := (Printf.sprintf "%s => %s# F[size=%s chunk=%s done=%s have=%s file=%s]%s" op ev sz sz dn dn file conns) :: !parts) ops;
+    parts := (Printf.sprintf "%s => %s# F[size=%s chunk=%s done=%s have=%s file=%s]%s%s" op ev sz sz dn dn file conns (if hashfail then " !hashfail" else "")) :: !parts) ops;
   (match !g.g_done with Some _ -> parts := "same=1" :: !parts | None -> ());
   String.concat " ; " (List.rev !parts)
 
